@@ -4,6 +4,7 @@
 -/
 import JsonataModel.Model.Eval
 import JsonataModel.Model.Strings
+import JsonataModel.Model.Regex
 
 namespace Jsonata
 open NumSys
@@ -263,7 +264,7 @@ def paramCount : Val N → Nat
   | .partialFn _ args _ _ => (args.filter fun a => match a with | .placeholder => true | _ => false).length
   | .transformFn .. => 1
   | .chain .. => 1
-  | .regexFn _ => 1
+  | .regexFn .. => 1
   | _ => 0
 
 def clamp (n lo hi : Nat) : Nat := if n < lo then lo else if n > hi then hi else n
@@ -525,6 +526,109 @@ def optStrL : Option (Val N) → Option (List Char)
   | some (.str s) => some s.toList
   | _ => none
 
+/-! ### regular-expression consumers (jlib/string.go) -/
+
+/-- the object a match callable returns (callable.go matchCallable.Call) -/
+def matchObj (m : MatchRec) (rest : List MatchRec) : Val N :=
+  .obj [("end", .num (ofInt m.stop)), ("groups", .arr (m.groups.map .str)), ("match", .str m.text),
+        ("next", .matchNext rest), ("start", .num (ofInt m.start))]
+
+/-- regexCallable.Call / matchCallable.Call: the first match object of a list, or no value -/
+def firstMatch : List MatchRec → Option (Val N)
+  | [] => none
+  | m :: rest => some (matchObj m rest)
+
+/-- callMatchFunc: read the members of one match object -/
+def readMatch (v : Val N) : Except Err (MatchRec × Val N) :=
+  match v with
+  | .obj kvs =>
+    match objGet kvs "match", objGet kvs "start", objGet kvs "end", objGet kvs "groups", objGet kvs "next" with
+    | some (.str t), some (.num a), some (.num b), some (.arr gs), some nx =>
+      match allStrs gs with
+      | some gss =>
+        if nx.isFn then
+          -- a negative offset can never pass extractMatches' check: it is recorded as the
+          -- impossible pair (1, 0), which that check rejects as well
+          if toInt a < 0 || toInt b < 0 then .ok ({ text := t, start := 1, stop := 0, groups := gss }, nx)
+          else .ok ({ text := t, start := (toInt a).toNat, stop := (toInt b).toNat, groups := gss }, nx)
+        else .error (.lib "match")
+      | none => .error (.lib "match")
+    | _, _, _, _, _ => .error (.lib "match")
+  | _ => .error (.lib "match")
+
+/-- callMatchFunc: follow the `next` chain (fuel bounds a user-defined chain) -/
+def collectMatches (r : Rec N) : Nat → Val N → List (Option (Val N)) → List MatchRec → EvalM N (List MatchRec)
+  | 0, _, _, _ => throw .fuel
+  | fuel + 1, fn, argv, acc => do
+    let res ← r.call fn none argv
+    match res with
+    | none => pure acc.reverse
+    | some v =>
+      match readMatch v with
+      | .error e => throw e
+      | .ok (m, nx) => collectMatches r fuel nx [] (m :: acc)
+
+/-- extractMatches: all matches of the pattern function on `s`, offsets checked, then the limit -/
+def extractMatches (r : Rec N) (fn : Val N) (s : String) (limit : Option Nat) : EvalM N (List MatchRec) := do
+  let ms ← collectMatches r 100000 fn [some (.str s)] []
+  if !Rx.orderedB s.utf8ByteSize 0 (ms.map fun m => (m.start, m.stop)) then libErr "match"
+  else match limit with
+    | some l => pure (ms.take l)
+    | none => pure ms
+
+def matchResultObj (m : MatchRec) : Val N :=
+  .obj [("groups", .arr (m.groups.map .str)), ("index", .num (ofInt m.start)), ("match", .str m.text)]
+
+/-- jlib.Match -/
+def libMatch (r : Rec N) (s : String) (fn : Val N) (lim : Option Int) : EvalM N (Option (Val N)) := do
+  match lim with
+  | some l => if l < 0 then libErr "match" else
+      let ms ← extractMatches r fn s (some l.toNat)
+      pure (some (.arr (ms.map matchResultObj)))
+  | none =>
+      let ms ← extractMatches r fn s none
+      pure (some (.arr (ms.map matchResultObj)))
+
+/-- jlib.Split with a pattern function -/
+def libSplitRx (r : Rec N) (s : String) (fn : Val N) (lim : Option Int) : EvalM N (Option (Val N)) := do
+  if (match lim with | some l => decide (l < 0) | none => false) then libErr "split" else
+  let ms ← extractMatches r fn s none
+  let parts := Rx.splitBy (Rx.bytesOf s) 0 (ms.map fun m => (m.start, m.stop))
+  match parts.mapM Rx.strOfBytes with
+  | none => throw (.unsupported "split inside a character")
+  | some ps =>
+    let ps := match lim with | some l => if l.toNat < ps.length then ps.take l.toNat else ps | none => ps
+    pure (some (.arr (ps.map Val.str)))
+
+/-- the replacement for each match: template expansion or a function call -/
+def replacementsFor (r : Rec N) (repl : Val N) : List MatchRec → EvalM N (List (Nat × Nat × List UInt8))
+  | [] => pure []
+  | m :: ms => do
+    -- Go walks the matches from the last to the first
+    let rest ← replacementsFor r repl ms
+    let txt ← (match repl with
+      | .str t =>
+        if t.toList.contains '$' then
+          pure (String.ofList (Rx.expand m.text.toList (m.groups.map String.toList) (t.length + 1) t.toList))
+        else pure t
+      | f => do
+        let v ← r.call f none [some (matchResultObj m)]
+        match v with
+        | some (.str t) => pure t
+        | _ => libErr "replace" : EvalM N String)
+    pure ((m.start, m.stop, Rx.bytesOf txt) :: rest)
+
+/-- jlib.Replace with a pattern function -/
+def libReplaceRx (r : Rec N) (s : String) (fn : Val N) (repl : Val N) (lim : Option Int) :
+    EvalM N (Option (Val N)) := do
+  if (match lim with | some l => decide (l < 0) | none => false) then libErr "replace" else
+  if !(repl.isStr || repl.isFn) then libErr "replace" else
+  let ms ← extractMatches r fn s (lim.map Int.toNat)
+  let reps ← replacementsFor r repl ms
+  match Rx.strOfBytes (Rx.replaceBack (Rx.bytesOf s) reps) with
+  | some out => pure (some (.str out))
+  | none => throw (.unsupported "replace inside a character")
+
 /-- Dispatch of a built-in after argument processing. `args` has one entry per
     parameter (absent optionals are `none`). -/
 def builtinImpl (r : Rec N) (name : String) (args : List (Option (Val N))) :
@@ -542,11 +646,19 @@ def builtinImpl (r : Rec N) (name : String) (args : List (Option (Val N))) :
   | "pad", [some (.str s), some (.num w), ch] => pure (some (strV (Str.pad s.toList (toInt w) (optStrL ch))))
   | "trim", [some (.str s)] => pure (some (strV (Str.trim s.toList)))
   | "contains", [some (.str s), some (.str p)] => pure (some (.bool (Str.contains s.toList p.toList)))
+  | "contains", [some (.str s), some f] =>
+      if f.isFn then do
+        let ms ← extractMatches r f s none
+        pure (some (.bool (!ms.isEmpty)))
+      else libErr "contains"
+  | "match", [some (.str s), some f, lim] => libMatch r s f (optInt lim)
   | "split", [some (.str s), some (.str sep), lim] =>
       match optInt lim with
       | some l => if l < 0 then libErr "split" else
           pure (some (.arr ((Str.applyLimit (Str.split s.toList sep.toList) (some l)).map strV)))
       | none => pure (some (.arr ((Str.split s.toList sep.toList).map strV)))
+  | "split", [some (.str s), some f, lim] =>
+      if f.isFn then libSplitRx r s f (optInt lim) else libErr "split"
   | "join", [some v, sep] =>
       match v with
       | .str s => pure (some (.str s))
@@ -563,6 +675,8 @@ def builtinImpl (r : Rec N) (name : String) (args : List (Option (Val N))) :
       match optInt lim with
       | some l => if l < 0 then libErr "replace" else libErr "replace"
       | none => let _ := p; libErr "replace"
+  | "replace", [some (.str s), some f, some rep, lim] =>
+      if f.isFn then libReplaceRx r s f rep (optInt lim) else libErr "replace"
   | "abs", [some (.num x)] => pure (some (.num (if lt x (ofInt 0) then neg x else if beq x (ofInt 0) then ofInt 0 else x)))
   | "floor", [some (.num x)] => pure (some (.num (floor x)))
   | "sum", [some v] => match libSum v with | .ok x => pure x | .error e => throw e
